@@ -24,6 +24,7 @@ package fri
 //@ def merkle_bits(ibits, cbits, sib) = forall(k, 0, len(sib), isbit(ibits[k])) && forall(k, 0, 4, isbit(cbits[k]))
 
 //@ func (f *Chip) verifyMerkleProofToCapWithCapIndex(leafData []gl.Variable, leafIndexBits []frontend.Variable, capIndexBits []frontend.Variable, merkleCap variables.FriMerkleCap, proof *variables.FriMerkleProof)
+//@   locals currentDigest i sibling bit inputs state errorMsg leafLookups i merkleCapEntry
 //@   props C12 C20
 //@   circuit
 //@   requires canonSeq(leafData)
@@ -41,6 +42,7 @@ package fri
 //@        merkle_ok(p.EvalsProofs[i].Elements, ibits, cbits, caps[i], p.EvalsProofs[i].MerkleProof.Siblings))
 
 //@ func (f *Chip) verifyInitialProof(xIndexBits []frontend.Variable, proof *variables.FriInitialTreeProof, initialMerkleCaps []variables.FriMerkleCap, capIndexBits []frontend.Variable)
+//@   locals i evals merkleProof cap
 //@   props C12 C20
 //@   circuit
 //@   requires forall(i, 0, len(proof.EvalsProofs), canonSeq(proof.EvalsProofs[i].Elements))
@@ -53,6 +55,7 @@ package fri
 
 // ------------------------------------------------------------------ openings and final polynomial
 //@ func (f *Chip) finalPolyEval(finalPoly variables.PolynomialCoeffs, point gl.QuadraticExtensionVariable) (res gl.QuadraticExtensionVariable)
+//@   locals ret i
 //@   props C13 C05
 //@   circuit
 //@   requires chipok(f.gl) && canonQE(point) && forall(k, 0, len(finalPoly.Coeffs), canonQE(finalPoly.Coeffs[k]))
@@ -61,6 +64,7 @@ package fri
 //@   loop 0 invariant -1 <= i && i < len(finalPoly.Coeffs) && canonQE(ret) && ret == qe_horner(finalPoly.Coeffs, point, i + 1)
 
 //@ func (f *Chip) fromOpeningsAndAlpha(openings *Openings, alpha gl.QuadraticExtensionVariable) (res []gl.QuadraticExtensionVariable)
+//@   locals reducedOpenings batch
 //@   props C13 C05
 //@   circuit
 //@   requires chipok(f.gl) && canonQE(alpha) && forall(b, 0, len(openings.Batches), forall(k, 0, len(openings.Batches[b].Values), canonQE(openings.Batches[b].Values[k])))
@@ -73,6 +77,7 @@ package fri
 // batch 1 (at g*zeta) = zs_next.
 //@ def seg_eq(dst, off, src) = forall(k, 0, len(src), dst[off + k] == src[k])
 //@ func (f *Chip) ToOpenings(c variables.OpeningSet) (res Openings)
+//@   locals values zetaBatch zetaNextBatch
 //@   props C11 C13 C20
 //@   circuit
 //@   ensures len(res.Batches) == 2
@@ -95,6 +100,7 @@ package fri
 //@ recdef gl_ebits(bits []int, base int, k int) int = ite(k <= 0, 1, ebits_step(gl_ebits(bits, base, k - 1), bits[k-1], gl_pow(base, pow2(k - 1))))
 
 //@ func (f *Chip) expFromBitsConstBase(base goldilocks.Element, exponentBits []frontend.Variable) (res gl.Variable)
+//@   locals product i bit pow basePow basePowVariable
 //@   props C13 C05
 //@   circuit
 //@   requires chipok(f.gl) && base != 0 && len(exponentBits) <= 62 && forall(k, 0, len(exponentBits), isbit(exponentBits[k]))
@@ -103,6 +109,7 @@ package fri
 //@   loop 0 invariant -1 <= rangeindex && rangeindex < len(exponentBits) && canon(product) && product.Limb == gl_ebits(exponentBits, base, rangeindex + 1)
 
 //@ func (f *Chip) calculateSubgroupX(xIndexBits []frontend.Variable, nLog uint64) (res gl.Variable)
+//@   locals g base xIndexBitsRev i product
 //@   props C13 C05
 //@   circuit
 //@   requires chipok(f.gl) && nLog <= 32 && len(xIndexBits) <= 62 && forall(k, 0, len(xIndexBits), isbit(xIndexBits[k]))
@@ -125,6 +132,7 @@ package fri
 //@ def oracles_small(instance) = forall(i, 0, len(instance.Oracles), instance.Oracles[i].NumPolys <= pow2(40))
 
 //@ func validateFriProofShape(proof *variables.FriProof, instance InstanceInfo, params *types.FriParams)
+//@   locals commitPhaseMerkleCaps queryRoundProofs finalPoly capHeight cap queryRound initialTreesProof steps i evalProof leaf merkleProof oracle salt_size codewordLenBits i step evals merkleProof arityBits arity
 //@   props C20
 //@   plain
 //@   requires params_small(params) && oracles_small(instance)
@@ -154,6 +162,7 @@ package fri
 //@ def fci_step(sum, alpha, e, open, x, point) = qe_muladdo(tuple(qe_horner(e, alpha, 0)[0] + open[0]*(P-1), qe_horner(e, alpha, 0)[1] + open[1]*(P-1)), qe_inv(qe_subo(x, point)),
 //@        qe_mulo(qe_pow_sm(alpha, tuple(1, 0), len(e), 0, bitlen(len(e))), sum))
 //@ func (f *Chip) friCombineInitial(instance InstanceInfo, proof variables.FriInitialTreeProof, friAlpha gl.QuadraticExtensionVariable, subgroupX_QE gl.QuadraticExtensionVariable, precomputedReducedEval []gl.QuadraticExtensionVariable) (res gl.QuadraticExtensionVariable)
+//@   locals sum i batch reducedOpenings point evals polynomial reducedEvals numerator denominator inv hasInv
 //@   props C13 C05 C20
 //@   circuit
 //@   requires chipok(f.gl) && sameapi(f.api, f.api) && canonQE(friAlpha) && canonQE(subgroupX_QE) && canonQEs(precomputedReducedEval)
@@ -170,6 +179,7 @@ package fri
 //@        forall(k, 0, rangeindex1 + 1, evals[k] == tuple(proof.EvalsProofs[batch.Polynomials[k].OracleIndex].Elements[batch.Polynomials[k].PolynomialInfo], 0))
 
 //@ func assertNoncanonicalIndicesOK(friParams types.FriParams)
+//@   locals numAmbiguousElems queryError pAmbiguous
 //@   props C20
 //@   plain
 //@   flag trusted
@@ -182,6 +192,7 @@ package fri
 //@ recdef ip_lx(xs []QE, x QE, k int) QE = ite(k <= 0, tuple(1, 0), qe_submul(x, xs[k-1], ip_lx(xs, x, k - 1)))
 //@ recdef ip_sum(xs []QE, ys []QE, ws []QE, x QE, k int) QE = ite(k <= 0, tuple(0, 0), qe_add(qe_mul(ys[k-1], qe_div(ws[k-1], qe_sub(x, xs[k-1]))), ip_sum(xs, ys, ws, x, k - 1)))
 //@ func (f *Chip) interpolate(x gl.QuadraticExtensionVariable, xPoints []gl.QuadraticExtensionVariable, yPoints []gl.QuadraticExtensionVariable, barycentricWeights []gl.QuadraticExtensionVariable) (res gl.QuadraticExtensionVariable)
+//@   locals lX i sum lookupFromPoints i quotient hasQuotient interpolation lookupVal i
 //@   props C13 C05
 //@   circuit
 //@   requires chipok(f.gl) && canonQE(x) && canonQEs(xPoints) && canonQEs(yPoints) && canonQEs(barycentricWeights) && len(xPoints) <= 256
@@ -199,6 +210,7 @@ package fri
 //@ def rev4(i) = (i % 2) * 8 + ((i / 2) % 2) * 4 + ((i / 4) % 2) * 2 + (i / 8) % 2
 //@ recdef bw_prod(xs []QE, i int, j int) QE = ite(j <= 0, tuple(1, 0), ite(j - 1 == i, bw_prod(xs, i, j - 1), qe_submulo(xs[i], xs[j-1], bw_prod(xs, i, j - 1))))
 //@ func (f *Chip) computeEvaluation(x gl.Variable, xIndexWithinCosetBits []frontend.Variable, arityBits uint64, evals []gl.QuadraticExtensionVariable, beta gl.QuadraticExtensionVariable) (res gl.QuadraticExtensionVariable)
+//@   locals arity g gInv permutedEvals i newIndex revXIndexWithinCosetBits i start cosetStart xPoints yPoints g_F i barycentricWeights i j inv hasInv
 //@   props C13 C05 C20
 //@   circuit
 //@   flag honest-callees-assumed
@@ -221,6 +233,7 @@ package fri
 //@ def params_ok(p) = params_small(p) && p.Config.CapHeight == 4 && p.DegreeBits + p.Config.RateBits <= 32 && 4 <= p.DegreeBits + p.Config.RateBits && 1 <= p.Config.ProofOfWorkBits && p.Config.ProofOfWorkBits <= 63
 
 //@ func (f *Chip) verifyQueryRound(instance InstanceInfo, challenges *variables.FriChallenges, precomputedReducedEval []gl.QuadraticExtensionVariable, initialMerkleCaps []variables.FriMerkleCap, proof *variables.FriProof, xIndex gl.Variable, n uint64, nLog uint64, roundProof *variables.FriQueryRound)
+//@   locals xIndexBits capIndexBits subgroupX subgroupX_QE oldEval i arityBits evals cosetIndexBits xIndexWithinCosetBits leafLookups i newEval fieldEvals j j finalPolyEval
 //@   props C01 C12 C20 C05
 //@   circuit
 //@   flag honest-callees-assumed acceptance-asserts
@@ -278,6 +291,7 @@ package fri
 //@ def fri_inputs_canon(p) = forall(i, 0, len(p.QueryRoundProofs), canonRound(p.QueryRoundProofs[i])) && canonQEs(p.FinalPoly.Coeffs)
 
 //@ func (f *Chip) VerifyFriProof(instance InstanceInfo, openings Openings, friChallenges *variables.FriChallenges, initialMerkleCaps []variables.FriMerkleCap, friProof *variables.FriProof)
+//@   locals precomputedReducedEvals nLog n idx xIndex roundProof
 //@   props C01 C14 C12 C20 C05
 //@   circuit
 //@   flag honest-callees-assumed
@@ -305,6 +319,7 @@ package fri
 //@ def polys_are(l, off, n, oracle) = forall(j, off, off + n, l[j].OracleIndex == oracle && l[j].PolynomialInfo == j - off)
 
 //@ func polynomialInfoFromRange(c *types.CommonCircuitData, oracleIdx uint64, startPolyIdx uint64, endPolyIdx uint64) (res []PolynomialInfo)
+//@   locals returnArr i
 //@   props C13 C20
 //@   plain
 //@   requires startPolyIdx <= endPolyIdx && endPolyIdx <= pow2(62)
@@ -313,12 +328,14 @@ package fri
 //@   loop 0 invariant startPolyIdx <= i && i <= endPolyIdx && len(returnArr) == i - startPolyIdx && forall(k, 0, len(returnArr), returnArr[k].OracleIndex == oracleIdx && returnArr[k].PolynomialInfo == startPolyIdx + k)
 
 //@ func numPreprocessedPolys(c *types.CommonCircuitData) (res uint64)
+//@   locals sigmasRange
 //@   props C13 C20
 //@   plain
 //@   requires cd_small(c)
 //@   ensures res == c.NumConstants + c.Config.NumRoutedWires
 
 //@ func sigmasRange(c *types.CommonCircuitData) (res []uint64)
+//@   locals returnArr i
 //@   props C13 C20
 //@   plain
 //@   requires cd_small(c)
@@ -326,6 +343,7 @@ package fri
 //@   loop 0 invariant c.NumConstants <= i && i <= c.NumConstants + c.Config.NumRoutedWires + 1 && len(returnArr) == i - c.NumConstants && forall(k, 0, len(returnArr), returnArr[k] == c.NumConstants + k)
 
 //@ func friAllPolys(c *types.CommonCircuitData) (res []PolynomialInfo)
+//@   locals returnArr
 //@   props C13 C20
 //@   plain
 //@   requires cd_small(c)
@@ -340,6 +358,7 @@ package fri
 //@ opaque def zs_polys(nc, npp) = nc * (1 + npp)
 //@ opaque def quot_polys(nc, qdf) = nc * qdf
 //@ func (f *Chip) GetInstance(zeta gl.QuadraticExtensionVariable) (res InstanceInfo)
+//@   locals zetaBatch g zetaNext zetaNextBatch
 //@   props C13 C20 C05
 //@   circuit
 //@   reveal zs_polys quot_polys
